@@ -377,3 +377,67 @@ c.ensures(
     lambda S: z3.ToReal(S.vars["B"].t + S.vars["blk"].t) <= S.vars["L"].t * (S.vars["t"].t - S.vars["t0"].t) + z3.ToReal(S.vars["blk"].t) + S.vars["rho"].t,
     "bytes-including-block-in-flight-within-rate-plus-one-block",
 )
+
+
+# ------------------------------------------------------------------------------------ wiring audit (closes the frame of the wiring units)
+WIRING_SITES = {
+    # (file, enclosing function) -> unit whose contract pins the throttles carried by the stream made/updated there
+    ("common.py", "ThrottleStreamIO.__init__"): "ThrottleStreamIO (constructor stores the dict it is given)",
+    ("server.py", "Server.dispatcher"): "Server.dispatcher/set-up",
+    ("server.py", "Server.user"): "Server.user#SEQ",
+    ("server.py", "Server.pasv.handler"): "Server.pasv.<locals>.handler",
+    ("server.py", "Server.epsv.handler"): "Server.epsv.<locals>.handler",
+    ("client.py", "BaseClient.connect"): "BaseClient.connect",
+    ("client.py", "Client.get_stream"): "Client.get_stream",
+}
+THROTTLE_HOLDERS = {"throttle", "throttle_per_connection", "throttle_per_user", "throttles"}
+
+
+def wiring_audit(tier, seed):
+    """frame condition of the C15 wiring contracts: every place in the package that builds, stores or mutates a stream's
+    `throttles` mapping, or (re)binds one of the server/client throttle attributes, lies inside a function under a
+    wiring contract.  A site outside the table is *undecided* (exit 2: wiring not covered), never a violation."""
+    import ast
+    import os
+
+    repo = os.environ.get("AIOFTP_REPO", "/repo")
+    out = {"summary": "", "violations": [], "undecided": [], "evaluations": 0}
+    sites = []
+    for fn in ("common.py", "server.py", "client.py", "pathio.py", "utils.py", "errors.py", "__init__.py", "__main__.py"):
+        p = os.path.join(repo, "src", "aioftp", fn)
+        if not os.path.exists(p):
+            continue
+        tree = ast.parse(open(p).read())
+
+        def walk(node, qual):
+            for ch in ast.iter_child_nodes(node):
+                q = qual
+                if isinstance(ch, (ast.FunctionDef, ast.AsyncFunctionDef, ast.ClassDef)):
+                    q = f"{qual}.{ch.name}" if qual else ch.name
+                if isinstance(ch, ast.keyword) and ch.arg == "throttles":
+                    sites.append((fn, qual, ch.value.lineno, "throttles= argument"))
+                if isinstance(ch, (ast.Assign, ast.AugAssign, ast.AnnAssign, ast.Delete)):
+                    tg = ch.targets if isinstance(ch, (ast.Assign, ast.Delete)) else [ch.target]
+                    for t in tg:
+                        base = t.value if isinstance(t, ast.Subscript) else t
+                        if isinstance(base, ast.Attribute) and base.attr in THROTTLE_HOLDERS:
+                            sites.append((fn, qual, ch.lineno, f"store to .{base.attr}"))
+                if isinstance(ch, ast.Call) and isinstance(ch.func, ast.Attribute) and isinstance(ch.func.value, ast.Attribute) and ch.func.value.attr in THROTTLE_HOLDERS and ch.func.attr in ("update", "pop", "clear", "setdefault", "popitem", "__setitem__", "__delitem__"):
+                    sites.append((fn, qual, ch.lineno, f".{ch.func.value.attr}.{ch.func.attr}()"))
+                walk(ch, q)
+
+        walk(tree, "")
+    allowed = dict(WIRING_SITES)
+    allowed[("server.py", "Server.__init__")] = "Server.__init__"
+    allowed[("client.py", "BaseClient.__init__")] = "BaseClient.__init__"
+    for fn, qual, line, what in sites:
+        out["evaluations"] += 1
+        if (fn, qual) not in allowed:
+            out["undecided"].append({"name": f"wiring-site-outside-the-contracts:{fn}:{qual}:{what}", "reason": f"{fn}:{line} {what} in {qual or '<module>'} is not covered by a wiring contract"})
+    seen = {(fn, q) for fn, q, _, _ in sites}
+    for k in allowed:
+        if k not in seen:
+            out["undecided"].append({"name": f"wiring-site-vanished:{k[0]}:{k[1]}", "reason": "the table of wiring sites no longer matches the source"})
+    out["summary"] = f"throttle wiring audit: {len(sites)} construction/mutation sites, all inside functions under a wiring contract" if not out["undecided"] else f"throttle wiring audit: {len(out['undecided'])} site(s) not covered"
+    out["bounded"] = {"checker": "contracts.c15_throttle.wiring_audit", "what": "enumeration from the AST of every store/mutation of a throttles mapping or throttle attribute", "cases": len(sites), "label": "exhaustive (finite)"}
+    return out
